@@ -20,6 +20,82 @@ def async_refs_expr(ctx, e, aliases):
     return ctx.facts.field_of(e, aliases) == "private.async_refs"
 
 
+def rx_latest_wins(ctx, rule_g, rule_c):
+    """Latest-wins discipline of asynchronous evaluations in reactive.py (shared by R10.g / R10.c and R08.g2 / R08.c2)."""
+    # ------------------------------------------------------------- R10.g
+    for g in ctx.repo.all_funcs("param.reactive"):
+        if g.is_async or g.cls is None or g.cls.name != "rx" or g.name in ("__init__", "__new__"):
+            continue
+        gc = ctx.facts.cfg(g)
+        ws = [n for n in gc.live_nodes() for t in stores_in(n) if isinstance(t, ast.Attribute) and t.attr == "_current_" and norm(t.value) == "self"
+              and not (isinstance(n.ast, ast.Assign) and norm(n.ast.value) in ("Undefined", "_current", "None"))]
+        for w in ws:
+            resets = [n for n in gc.live_nodes() for t in stores_in(n) if isinstance(t, ast.Attribute) and t.attr == "_current_task" and norm(t.value) == "self"]
+            if any(gc.dominates(r, w) or gc.postdominates(r, w) for r in resets):
+                ctx.ok(rule_g, g, w, "synchronous result supersedes pending evaluations (token reset on the same path)")
+            else:
+                ctx.fail(rule_g, g, w, "`%s` stores a synchronously computed result but leaves self._current_task pointing at a pending asynchronous evaluation: "
+                                        "when that evaluation completes its guard still holds and the stale result overwrites the newer one" % w.text(),
+                         key="%s::sync-store-keeps-token" % g.qualname,
+                         input="rx pipe whose function returns a coroutine for input 1 and a plain value for input 2; update 1->2, then the coroutine completes -> stale result wins")
+
+    # ------------------------------------------------------------- R10.c
+    for g in ctx.repo.all_funcs("param.reactive"):
+        if not g.is_async:
+            continue
+        gc = ctx.facts.cfg(g)
+        writes = [n for n in gc.live_nodes() for t in stores_in(n) if isinstance(t, ast.Attribute) and t.attr in ("_current_", "_current_task") and norm(t.value) == "self"]
+        if not any(isinstance(t, ast.Attribute) and t.attr == "_current_" for n in writes for t in stores_in(n)):
+            continue
+        regs = [n for n in gc.live_nodes() if n.kind == "stmt" and isinstance(n.ast, ast.Assign)
+                and any(isinstance(t, ast.Attribute) and t.attr == "_current_task" for t in n.ast.targets)
+                and isinstance(n.ast.value, ast.Call) and norm(n.ast.value.func).endswith("current_task")]
+        tnames = {t.id for n in regs for t in n.ast.targets if isinstance(t, ast.Name)}
+        gsusp = [n for n in gc.live_nodes() if n.suspend]
+        if not regs or not all(any(gc.dominates(r, s) for r in regs) for s in gsusp):
+            ctx.fail(rule_c, g, g.node, "the evaluation task is not registered in self._current_task before the first suspension point")
+            continue
+        for w in writes:
+            after_susp = any(any(r is w for r in gc.reachable_from([s])) for s in gsusp)
+            if not after_susp:
+                ctx.ok(rule_c, g, w, "write precedes every suspension point")
+                continue
+            conds = gc.conditions(w)
+            ok = any(tr is True and isinstance(e, ast.Compare) and isinstance(e.ops[0], ast.Is)
+                     and {norm(e.left), norm(e.comparators[0])} >= {"self._current_task"} and ({norm(e.left), norm(e.comparators[0])} & tnames)
+                     for e, tr in conds)
+            if ok:
+                ctx.ok(rule_c, g, w, "write after a suspension is guarded by `self._current_task is task`")
+            else:
+                ctx.fail(rule_c, g, w, "`%s` happens after a suspension point without the latest-wins guard `self._current_task is task`: "
+                                        "a superseded evaluation overwrites the newer result (or wipes the newer evaluation's ownership token)" % w.text())
+
+
+def results_applied_by_the_task(ctx, rule):
+    """Parameters._async_ref applies each result of an asynchronous reference itself: every `.update(...)` of the namespace is a
+    statement of the coroutine.  An application moved into a nested function handed to the event loop (call_soon, a
+    callback, another task) is no longer stopped by cancelling the reference's task: an item produced before a newer
+    assignment lands after it."""
+    f = ctx.repo.func("param.parameterized.Parameters._async_ref")
+    selfn = f.params[0]
+    direct, nested = [], []
+
+    def walk(node, depth):
+        for ch in ast.iter_child_nodes(node):
+            d = depth + (1 if isinstance(ch, (ast.FunctionDef, ast.AsyncFunctionDef, ast.Lambda)) else 0)
+            if isinstance(ch, ast.Call) and isinstance(ch.func, ast.Attribute) and ch.func.attr in ("update", "_update") and norm(ch.func.value) == selfn:
+                (nested if d else direct).append(ch)
+            walk(ch, d)
+    walk(f.node, 0)
+    ctx.require(direct or nested, "Parameters._async_ref no longer applies results through update")
+    if nested:
+        ctx.fail(rule, f, nested[0], "`%s` inside a nested function of _async_ref: the result is applied outside the task that a newer assignment cancels (a callback handed to the loop runs "
+                                     "although the task was cancelled in the meantime) -- an item of the superseded reference lands after the newer value" % norm(nested[0])[:60],
+                 key=f.qualname + "::detached-application", input="async generator reference; a plain assignment in the same loop iteration in which the generator produced an item")
+    else:
+        ctx.ok(rule, f, direct[0], "every application of a result in _async_ref is a statement of the coroutine itself (%d site(s))" % len(direct))
+
+
 def run(ctx):
     ctx.rule("R10.x", "context-manager model: _batch_call_watchers, batch_call_watchers, discard_events, _syncing and edit_constant interpreted abstractly with the body of the `with` supplied at the `yield` (62 cases: entry state x body ends normally / raises x nesting x queues replaced in the body x Parameter copies made in the body): flag, queues, syncing set and constant flags are, after the block, what they were before; the flush runs iff outermost, after the restore, also when the body raised", floor=1)
     ctx.rule("R10.r", "update-context exit: _ParametersRestorer.__exit__ interpreted abstractly (3 cases) assigns back every recorded previous value -- also one identical to the current value -- and every remembered reference in one update, and forgets the record, also when that update raises", floor=1)
@@ -216,53 +292,10 @@ def run(ctx):
     from checks.shared import ctor_records_every_ref
     ctor_records_every_ref(ctx, "R10.i")
 
-    # ------------------------------------------------------------- R10.g
-    for g in ctx.repo.all_funcs("param.reactive"):
-        if g.is_async or g.cls is None or g.cls.name != "rx" or g.name in ("__init__", "__new__"):
-            continue
-        gc = ctx.facts.cfg(g)
-        ws = [n for n in gc.live_nodes() for t in stores_in(n) if isinstance(t, ast.Attribute) and t.attr == "_current_" and norm(t.value) == "self"
-              and not (isinstance(n.ast, ast.Assign) and norm(n.ast.value) in ("Undefined", "_current", "None"))]
-        for w in ws:
-            resets = [n for n in gc.live_nodes() for t in stores_in(n) if isinstance(t, ast.Attribute) and t.attr == "_current_task" and norm(t.value) == "self"]
-            if any(gc.dominates(r, w) or gc.postdominates(r, w) for r in resets):
-                ctx.ok("R10.g", g, w, "synchronous result supersedes pending evaluations (token reset on the same path)")
-            else:
-                ctx.fail("R10.g", g, w, "`%s` stores a synchronously computed result but leaves self._current_task pointing at a pending asynchronous evaluation: "
-                                        "when that evaluation completes its guard still holds and the stale result overwrites the newer one" % w.text(),
-                         key="%s::sync-store-keeps-token" % g.qualname,
-                         input="rx pipe whose function returns a coroutine for input 1 and a plain value for input 2; update 1->2, then the coroutine completes -> stale result wins")
-
-    # ------------------------------------------------------------- R10.c
-    for g in ctx.repo.all_funcs("param.reactive"):
-        if not g.is_async:
-            continue
-        gc = ctx.facts.cfg(g)
-        writes = [n for n in gc.live_nodes() for t in stores_in(n) if isinstance(t, ast.Attribute) and t.attr in ("_current_", "_current_task") and norm(t.value) == "self"]
-        if not any(isinstance(t, ast.Attribute) and t.attr == "_current_" for n in writes for t in stores_in(n)):
-            continue
-        regs = [n for n in gc.live_nodes() if n.kind == "stmt" and isinstance(n.ast, ast.Assign)
-                and any(isinstance(t, ast.Attribute) and t.attr == "_current_task" for t in n.ast.targets)
-                and isinstance(n.ast.value, ast.Call) and norm(n.ast.value.func).endswith("current_task")]
-        tnames = {t.id for n in regs for t in n.ast.targets if isinstance(t, ast.Name)}
-        gsusp = [n for n in gc.live_nodes() if n.suspend]
-        if not regs or not all(any(gc.dominates(r, s) for r in regs) for s in gsusp):
-            ctx.fail("R10.c", g, g.node, "the evaluation task is not registered in self._current_task before the first suspension point")
-            continue
-        for w in writes:
-            after_susp = any(any(r is w for r in gc.reachable_from([s])) for s in gsusp)
-            if not after_susp:
-                ctx.ok("R10.c", g, w, "write precedes every suspension point")
-                continue
-            conds = gc.conditions(w)
-            ok = any(tr is True and isinstance(e, ast.Compare) and isinstance(e.ops[0], ast.Is)
-                     and {norm(e.left), norm(e.comparators[0])} >= {"self._current_task"} and ({norm(e.left), norm(e.comparators[0])} & tnames)
-                     for e, tr in conds)
-            if ok:
-                ctx.ok("R10.c", g, w, "write after a suspension is guarded by `self._current_task is task`")
-            else:
-                ctx.fail("R10.c", g, w, "`%s` happens after a suspension point without the latest-wins guard `self._current_task is task`: "
-                                        "a superseded evaluation overwrites the newer result (or wipes the newer evaluation's ownership token)" % w.text())
+    rx_latest_wins(ctx, "R10.g", "R10.c")
+    ctx.rule("R10.w", "results are applied by the task that can be cancelled: in Parameters._async_ref every `.update(...)` of the namespace is a statement of the coroutine itself, none sits in a "
+                      "nested function (a callback handed to the event loop escapes the cancellation of a superseded reference)", floor=1)
+    results_applied_by_the_task(ctx, "R10.w")
 
     # ------------------------------------------------------------- R10.j
     from checks.shared import syncing_set_replaced
